@@ -358,7 +358,10 @@ def explains(broken_item, found):
     known, _ = vlib.load_findings()  # a known finding never explains a newly broken obligation
     keys = " ".join(v.key for v in found if v.key not in known).lower()
     m = re.search(r"\.v:\d+ ([A-Za-z0-9_']+):", broken_item)
-    b = (m.group(1) if m else broken_item).lower()
+    if not m:
+        # translator unit / correspondence / build items name no lemma: any new concrete failing input explains them
+        return any(v.key not in known for v in found)
+    b = m.group(1).lower()
     table = [(("gen_b", "bspec", "bw0", "bw1", "bw2", "bw3", "kert", "kernel1d", "transpose", "algorithms", "evt"),
               ("cubic_bspline_value", "algorithms-disagree", "transpose=true")),
              (("ctrl", "control", "covers", "refine_size"), ("control_point_grid",)),
